@@ -172,10 +172,11 @@ package parsers
 //@   decreases n
 //@   induction s, t, n - 1
 //
-// every reported name is the spelling of the first tag that names it
+// every reported name is the spelling of the first tag that names it, and not empty
 //@ spec mSound(c *MustacheParser, n int) bool = forall j int :: 0 <= j && j < len(c.variableNames) ==>
 //@         mFirst(seq(c.initialTokens), heapof(MustacheToken, typ), heapof(MustacheToken, value), n, lower(c.variableNames[j])) != -1 &&
-//@         c.initialTokens[mFirst(seq(c.initialTokens), heapof(MustacheToken, typ), heapof(MustacheToken, value), n, lower(c.variableNames[j]))].value == c.variableNames[j]
+//@         c.initialTokens[mFirst(seq(c.initialTokens), heapof(MustacheToken, typ), heapof(MustacheToken, value), n, lower(c.variableNames[j]))].value == c.variableNames[j] &&
+//@         c.variableNames[j] != ""
 // every tag that names a variable is reported
 //@ spec mComplete(c *MustacheParser, n int) bool = forall i int :: 0 <= i && i < n && mVar(heapof(MustacheToken, typ), heapof(MustacheToken, value), c.initialTokens[i]) ==>
 //@         nFirst(seq(c.variableNames), len(c.variableNames), lower(c.initialTokens[i].value)) != -1
@@ -198,7 +199,7 @@ package parsers
 //@   loop 0
 //@     invariant -1 <= rangeindex && rangeindex < len(c.initialTokens)
 //@     invariant c.initialTokens == old(c.initialTokens) && elems(c.initialTokens) == old(elems(c.initialTokens))
-//@     invariant fresh(c.variableNames) && mNamesOK(c)
+//@     invariant fresh(c.variableNames)
 //@     invariant mSound(c, rangeindex + 1)
 //@     invariant mComplete(c, rangeindex + 1)
 //@     invariant mOrder(c, rangeindex + 1)
